@@ -39,6 +39,10 @@ PROPS = {
              {"checks": 6000, "timeout": 300},
              {"checks": 25000, "shards": 16, "timeout": 1800},
              assumptions=COMMON_ASSUME),
+    "C12": P("TestC12", "exploration",
+             {"checks": 30000, "timeout": 300},
+             {"checks": 100000, "shards": 16, "timeout": 1800},
+             assumptions=COMMON_ASSUME),
 }
 
 TRUST = "Trusted base: Go runtime, net/http, compress/*, google.golang.org/protobuf, rapid, and the harness's own reference wire layer as the reading of the protocol specs. Generated search: absence of violations is evidence over the explored cases only."
@@ -77,6 +81,11 @@ META = {
     "C09": {
         "technique": 'fault injection over generated exchanges (rapid): one wire-level fault per case on request or response bytes; reference decoder decides which faulty streams must fail; client outcome, response well-formedness and backend-observed messages are checked',
         "level_text": 'Fault enumeration: cut points, every kind of flag value, length and content-length misstatement, bit flips, undecodable payloads, missing status and trailing data, on both directions of every pairing; thorough adds exhaustive cut points/flag values for fixed small streams.',
+        "level_note": TRUST,
+    },
+    "C12": {
+        "technique": 'property-based testing (rapid): generated timeout header strings (boundary grids per encoding, malformed and none) through the real Transcoder; exact big-rational comparison of client and backend deadlines with an independent grammar per target encoding',
+        "level_text": 'Generated exploration of every digit count and unit of the three timeout encodings across all client forms and target protocols; never-extended, shortfall below the target unit, absent-stays-absent and malformed-rejected-before-dispatch are asserted with exact arithmetic.',
         "level_note": TRUST,
     },
 }
